@@ -42,6 +42,11 @@ Theorem C09_job_order_obligations :
   upload_failure_deletes_manifest = true /\
   recover_checks_output_before_deleting = true /\
   recover_deletes_inputs_before_manifest = true /\
+  (* compactFilesAdaptively looks the batch up in the manifests (after dropping the cache)
+     between the failed attempt and the retry on halves *)
+  adaptive_retry_consults_manifests = true /\
+  adaptive_retry_check_precedes_retry = true /\
+  adaptive_retry_invalidates_cache_first = true /\
   params_ok code_params /\ p_min_batch code_params <= p_default_batch code_params <= p_max_allowed code_params.
 Proof. vm_compute. repeat split; try reflexivity; try lia; repeat constructor. Qed.
 Print Assumptions C09_job_order_obligations.
@@ -49,19 +54,18 @@ Print Assumptions C09_job_order_obligations.
 Lemma deployed_order : job_run_order = code_order.
 Proof. apply order_ok_unique. apply C09_job_order_obligations. Qed.
 
-(* The guarded theorem for the mutation order and constants found in the source. *)
+(* The full-strength theorem for the mutation order and constants found in the source. *)
 Theorem C09_deployed_crash_recover :
   forall (compact : bool -> list row -> list row),
   (forall b l, rel b l (compact b l)) ->
-  forall cfg h elig s0,
+  forall cfg (h : list (bool * list outcome)) elig s0,
   NoDup (keys (files s0)) -> mans s0 = [] -> oks (files s0) ->
-  Forall (fun eo => Forall benign (snd eo)) h ->
   let life := fold_left (fun s eo => cycle compact job_run_order code_params cfg (fst eo) (snd eo) s) h s0 in
   let s := cycle compact job_run_order code_params cfg elig [] life in
   rel (any_meta (files s0)) (visible s0) (visible s) /\ mans s = [] /\ oks (files s).
 Proof.
-  intros compact Hc cfg h elig s0 H1 H2 H3 H4. rewrite deployed_order.
-  destruct (crash_recover compact Hc code_params cfg h elig s0 H1 H2 H3 H4) as [A [B [C _]]].
+  intros compact Hc cfg h elig s0 H1 H2 H3. rewrite deployed_order.
+  destruct (crash_recover compact Hc code_params cfg h elig s0 H1 H2 H3) as [A [B [C _]]].
   split; [exact A|split; [exact B|exact C]].
 Qed.
 Print Assumptions C09_deployed_crash_recover.
